@@ -103,3 +103,108 @@ _bounds("graph.decay+t4", {"cfg": "C06CfgDecayT4"}, "ctx.cfg['t4']['weight_min']
 _bounds("graph.min+t4.max", {"cfg": "C06CfgMinT4"}, "ctx.cfg['graph']['weight_min']", "ctx.cfg['t4']['weight_max']", "0.0")
 _bounds("config-namespace", {"config": "C06NsCfg"}, "ctx.config.graph['weight_min']", "ctx.config.graph['weight_max']",
         "ctx.config.graph['decay']['epsilon_prune']")
+
+# ---------------------------------------------------------------- discovery over an abstract directory listing
+# pyvc/ext_listing.py: os.path.isdir / os.listdir / os.path.join / os.path.getmtime over ghost state.
+# String reasoning is kept out of the verification conditions: os.path.join is the opaque `path_join`, the shape
+# of a numbered snapshot name is the opaque `is_snap` / `snap_no`; what the clauses need about them are the axioms
+# below, each one proved (for all strings) by the lemma `discovery_strings` from the definitions.
+R.uf("is_snap", ["str"], "bool")
+R.uf("snap_no", ["str"], "int")
+PICK_AXIOMS = [
+    # definitions (the code tests exactly this; is_snap_name / snap_num are spec helpers in specs.py)
+    "forall((n, 'str'), True, is_snap(n) == is_snap_name(n))",
+    "forall((n, 'str'), True, snap_no(n) == snap_num(n))",
+    # lemma discovery_strings/join-keeps-.json
+    "forall((n, 'str'), n.endswith('.json'), path_join(directory, n).endswith('.json'))",
+    # lemma discovery_strings/.json-is-not-a-temp-name
+    "forall((s, 'str'), s.endswith('.json'), not is_tmp_name(s))",
+]
+LISTED = "exists(i, 0 <= i < len(fs_listing), fs_listing[i].endswith('.json') and some(result) == path_join(directory, fs_listing[i]))"
+
+
+# str.isdigit() accepts digits that int() rejects (e.g. U+00B2 SUPERSCRIPT TWO): exactly then discovery raises
+BAD_SNAP = ("exists(i, 0 <= i < len(fs_listing), fs_listing[i].endswith('.json') and fs_listing[i].startswith('snap_') and "
+            "fs_listing[i][5:-5].isdigit() and not int_parses(fs_listing[i][5:-5]))")
+
+
+def _pick(variant, mtime_fails, unreachable):
+    R.contract(
+        S + "_pick_latest_snapshot_path", "C06", name="_pick_latest_snapshot_path[%s]" % variant, callee=False,
+        types={"directory": "str"}, returns="Optional[str]",
+        ghost={"fs_isdir": ("bool", "any"), "fs_listing": ("List[str]", "any"), "fs_mtime_fails": ("bool", mtime_fails),
+               "fs_listdir_raised": ("bool", "False")},
+        axioms=PICK_AXIOMS,
+        ensures=[
+            ("picks-a-listed-json-body", "implies(not is_none(result), " + LISTED + ")"),
+            ("result-ends-with-.json", "implies(not is_none(result), some(result).endswith('.json'))"),
+            ("never-a-.json.meta-sidecar", "implies(not is_none(result), not some(result).endswith('.json.meta'))"),
+            ("never-an-atomic-writer-temp-name", "implies(not is_none(result), not is_tmp_name(some(result)))"),
+            ("none-iff-nothing-to-pick",
+             "is_none(result) == (not fs_isdir or fs_listdir_raised or "
+             "forall(i, 0 <= i < len(fs_listing), not fs_listing[i].endswith('.json')))"),
+        ],
+        raises={"ValueError": BAD_SNAP}, timeout_ms=8000,
+        loops={0: {"inv": [
+            "forall(j, 0 <= j < len(numbered), exists(i, 0 <= i < _i, is_snap(_iter[i]) and "
+            " numbered[j][1] == path_join(directory, _iter[i]) and numbered[j][0] == snap_no(_iter[i])))",
+        ]}},
+        locals={"numbered": "List[Tuple[int, str]]", "stem": "str"},
+        unreachable_ok=unreachable,
+    )
+
+
+# `names` was already filtered by the comprehension, so the `continue` guard inside the loop is dead code;
+# with a working getmtime the two `except Exception: xs.sort()` arms are not taken (and vice versa the code after a
+# failing sort(key=getmtime) is the plain sort)
+_pick("mtime-ok", "False", ["continue", "state_candidates.sort()", "any_json.sort()"])
+_pick("mtime-raises", "True", ["continue"])
+
+
+# the same function on two *concrete* listings (symbolic directory name), loops unrolled: a numbered snapshot whose
+# digits are not decimal digits makes discovery raise ValueError (natively confirmed: "snap_\u00b2\u00b3.json")
+def _pick_concrete(variant, listing, ensures, raises):
+    R.contract(
+        S + "_pick_latest_snapshot_path", "C06", name="_pick_latest_snapshot_path[%s](bounded)" % variant, callee=False,
+        mode="bounded", unroll=4, types={"directory": "str"}, returns="Optional[str]",
+        ghost={"fs_isdir": ("bool", "True"), "fs_listing": ("Tuple[%s]" % ", ".join(["str"] * len(listing)), repr(tuple(listing))),
+               "fs_mtime_fails": ("bool", "False"), "fs_listdir_raised": ("bool", "False")},
+        axioms=PICK_AXIOMS[2:], ensures=[(n, "implies(not fs_listdir_raised, %s)" % e) for n, e in ensures], raises=raises, loops={0: None}, replay="c06_snapshot:pick_listing",
+        unreachable_ok=["return None", "continue", "state_candidates.sort()", "any_json.sort()",
+                        "state_candidates = ", "if state_candidates:", "any_json = ", "if not any_json:", "try:", "return any_json[0]",
+                        "return state_candidates[0]"],
+    )
+
+
+_pick_concrete("listing=snap_7,snap_12,state_a,tmp,meta",
+               ["snap_7.json", "snap_12.json", "state_a.json", "state_a.json.k3j2h1g0", "snap_12.json.meta"],
+               [("highest-number-wins", "result == path_join(directory, 'snap_12.json')")], "none")
+_pick_concrete("listing=snap_\u00b2\u00b3,state_x", ["snap_\u00b2\u00b3.json", "state_x.json"],
+               [("falls-back-to-state-file", "result == path_join(directory, 'state_x.json')")], "none")
+
+# ---------------------------------------------------------------- string lemmas behind the discovery axioms
+
+def _discovery_strings():
+    """the two string axioms of PICK_AXIOMS, from the definitions of os.path.join (posix, two arguments) and of the
+    atomic writer's temp names; plus: the sidecar and temp names the writers create are never `*.json` names"""
+    import z3
+    from pyvc.ext_listing import path_join2
+    d, n, s, p, r = z3.Strings("d n s p r")
+    J, M = z3.StringVal(".json"), z3.StringVal(".json.meta")
+    ch = z3.Union(z3.Range("a", "z"), z3.Range("0", "9"), z3.Re(z3.StringVal("_")))
+    tmp_re = z3.Concat(z3.Full(z3.ReSort(z3.StringSort())), z3.Re(z3.StringVal(".")), z3.Loop(ch, 8, 8))
+    rand8 = z3.InRe(r, z3.Loop(ch, 8, 8))
+    fast = {"z3_timeout_ms": 3000}
+    return [
+        ("join-keeps-.json", [z3.SuffixOf(J, n)], z3.SuffixOf(J, path_join2(d, n)), fast),
+        (".json-is-not-a-temp-name", [z3.SuffixOf(J, s)], z3.Not(z3.InRe(s, tmp_re)), fast),
+        (".json-is-not-a-sidecar-name", [z3.SuffixOf(J, s)], z3.Not(z3.SuffixOf(M, s)), fast),
+        # clematis/engine/snapshot.py:_write_sidecar_meta writes p + ".meta"
+        ("sidecar-name-is-not-.json", [], z3.Not(z3.SuffixOf(J, z3.Concat(p, z3.StringVal(".meta")))), fast),
+        # clematis/io/atomic.py:_make_tmp: NamedTemporaryFile(prefix=final.name + ".") -> final.name + "." + 8 x [a-z0-9_]
+        ("temp-name-is-a-temp-name", [rand8], z3.InRe(z3.Concat(p, z3.StringVal("."), r), tmp_re), fast),
+        ("temp-name-is-not-.json", [rand8], z3.Not(z3.SuffixOf(J, z3.Concat(p, z3.StringVal("."), r))), fast),
+    ]
+
+
+R.lemma("discovery_strings", "C06", _discovery_strings)
